@@ -8,7 +8,7 @@ DIGESTS = {
     "_parse_atom_site_aniso_label": {"ALL": "2d166274d0c4640b"},
     "_parse_space_group_symop_operation_xyz": {"ALL": "29eb4f62e4c9ad81"},
     # LSPlain: label += "_" + str(j + 1);  LSFresh: the same numbering, skipping labels that are already taken
-    "_expandAsymmetricUnit": {"LSPlain": "01bc7c6c5b53efab"},
+    "_expandAsymmetricUnit": {"LSPlain": "01bc7c6c5b53efab", "LSFresh": "1f1594f546ba4fee"},
     "leading_float": {"ALL": "f2d6d970477f705b"},
     # SREval: the constant part goes through eval (pinned tree);  SRNumeric: through _parseSymOpTranslation
     "getSymOp": {"SREval": "5697e8c7a3f0a02a", "SRNumeric": "7aa9d3253a3fad3b"},
